@@ -103,10 +103,46 @@ def run(ctx, tag, U, vars_, pre, bbs, op, posts, split=(0, 0), conf_every=1, det
         g.pin_types = mode["pin"]
         c = cg.Circuit(name="sym", graph=g, blackboxes=mkbbs())
         out = run_op(op, c)
-        if not mode["pin"] and out.kind == "raise" and out.exc in ("TypeError", "AttributeError"):
-            # the code under test may use a node type in a way only a real str supports (str methods, `x in "..."`):
-            # explore this case again with types handed out as plain strings (decided when read)
-            raise RestartPinned()
+        if out.kind == "raise" and out.exc in ("TypeError", "AttributeError", "NotImplementedError") and owns():
+            # Does the real code raise this too?  If not, the code under test uses the symbolic graph in a way the stand-in does
+            # not support (e.g. a str-only operation on a node type).  Fall back, for this path only, to RUNNING THE REAL CODE on
+            # randomly completed pre-states of the path condition and checking the post-conditions concretely.  This is sampling,
+            # not a solver verdict: a violation found this way is a real counterexample; finding none leaves the path undecided.
+            m0 = o.model()
+            r0 = sg.materialize(vars_, m0, mkbbs())
+            if run_op(op, r0).key()[:2] != out.key()[:2]:
+                import random as _random
+                rng = _random.Random(f"{tag}-{ctx.r['counters'].get('paths_sampled_concretely', 0)}")
+                P_, T_, O_, E_ = vars_
+                bvars = list(P_.values()) + list(O_.values()) + list(E_.values())
+                ivars = [(t_, 0, sg.MISSING) for t_ in T_.values()]
+                ctx.count("paths_sampled_concretely")
+                found = False
+                for _i in range(48):
+                    mm = o.random_model(bvars, ivars, rng)
+                    if mm is None:
+                        break
+                    real = sg.materialize(vars_, mm, mkbbs())
+                    before = sg.real_state(real)
+                    rout = run_op(op, real)
+                    after = sg.real_state(real)
+                    rnames = list(U) + [n for n in after[0] if n not in U]
+                    for n2, f2, s2, w2 in posts(acc_real(before), acc_real(after), rout, rnames, real):
+                        f2s = z3.simplify(f2)
+                        bad = z3.is_false(f2s)
+                        if not bad and not z3.is_true(f2s):
+                            q = z3.Solver()
+                            q.add(z3.Not(f2s))
+                            bad = q.check() == z3.sat
+                        if bad and (reachable is None or reachable(before)):
+                            ctx.violation(s2, f"{tag}: {w2}", dict(detail or {}, pre_state=spec_of(before), post_state=spec_of(after), outcome=rout.key(), found_by="concrete sampling fall-back (stand-in could not run this path)"), tag=f"{tag}:{n2}", concrete=True)
+                            found = True
+                            break
+                    if found:
+                        break
+                if not found:
+                    ctx.harness_error(f"E2: the stand-in cannot execute a path of {tag} ({out.exc}: {out.ret}) and concrete sampling found no violation: path undecided", detail)
+                return
         if not owns():
             return
         ctx.count("paths")
@@ -176,14 +212,7 @@ def run(ctx, tag, U, vars_, pre, bbs, op, posts, split=(0, 0), conf_every=1, det
             if not same:
                 ctx.harness_error(f"E2 stand-in does not conform to real networkx in {tag}", dict(detail or {}, pre_state=spec_of(sg.real_state(sg.materialize(vars_, m, mkbbs()))), symbolic=[a, spec_of(sym_state)], real=[b, spec_of(real_state)]))
 
-    try:
-        st = explore(pre, body, split_bits=split[0], split_index=split[1])
-    except RestartPinned:
-        mode["pin"] = True
-        for k_ in ("paths", "conformance_replays"):
-            pass
-        ctx.count("cases_restarted_with_pinned_types")
-        st = explore(pre, body, split_bits=split[0], split_index=split[1])
+    st = explore(pre, body, split_bits=split[0], split_index=split[1])
     if stats.get("sample") and stats.get("best", 0) >= 6 and not any(isinstance(x, dict) and "decisions_on_this_path" in x for x in ctx.r["samples"]):
         ctx.r["samples"].insert(0, stats["sample"])
     ctx.count("decisions", st["decisions"])
